@@ -85,7 +85,7 @@ Proof. exact bcd_construct_grad_sparse_eq_dense. Qed.
 Print Assumptions group_working_set_gradient_sparse_eq_dense.
 
 (* ProxNewton: the working-set gradient of the regenerated sparse kernel equals the dense one (any raw gradient) *)
-Require Import SK.Gen.KernPN SK.Lemmas.PnKernels.
+Require Import SK.Gen.KernPN SK.Lemmas.PnSparse.
 Theorem prox_newton_gradient_sparse_eq_dense : forall (raw_grad : list R -> list R -> res (list R))
     (n : nat) (M : csc) (X : list (list R)) (y : list R),
   (forall j, (0 <= j < Z.of_nat (length X))%Z ->
